@@ -84,6 +84,20 @@ def verify(src, sid):
         drop(d)
 
 
+def run_checks(props, d, ev, jobs=16):
+    """Run the checks of ``props`` against the tree ``d`` concurrently;
+    yields (property, (exit code, output)) in the order of ``props``."""
+    from concurrent.futures import ThreadPoolExecutor
+
+    def one(p):
+        pev = os.path.join(ev, p)
+        os.makedirs(pev, exist_ok=True)
+        return sh('%s %s/check.py %s --repo %s --evidence-dir %s' % (
+            PY, V, p, d, pev))
+    with ThreadPoolExecutor(max_workers=jobs) as ex:
+        return list(zip(props, ex.map(one, props)))
+
+
 def claimed():
     m = json.load(open(os.path.join(V, 'MANIFEST.json')))
     return [c['property_id'] for c in m['checks']]
@@ -107,9 +121,7 @@ def evaluate(ids, props=None):
             ev = tempfile.mkdtemp(prefix='fbseed_ev_')
             hits = []
             errs = []
-            for p in props:
-                rc, o = sh('%s %s/check.py %s --repo %s --evidence-dir %s' % (
-                    PY, V, p, d, ev))
+            for p, (rc, o) in run_checks(props, d, ev):
                 if rc == 1:
                     rules = sorted({l.split()[0] for l in o.splitlines()
                                     if l.startswith('  R') and
@@ -201,16 +213,15 @@ def refactor_eval(srcs):
             ev = tempfile.mkdtemp(prefix='fbseed_ev_')
             res = {}
             detail = []
-            for p in claimed():
-                rc, o = sh('%s %s/check.py %s --repo %s --evidence-dir %s' % (
-                    PY, V, p, d, ev))
+            for p, (rc, o) in run_checks(claimed(), d, ev):
                 res[p] = rc
                 if rc:
                     lines = [l for l in o.splitlines()
-                             if l.startswith('ANALYSIS-ERROR') or
-                             l.startswith('    construct:') or
-                             l.startswith('  R')]
-                    detail.append((p, rc, lines[:6]))
+                             if (l.startswith('ANALYSIS-ERROR') or
+                                 l.startswith('    construct:') or
+                                 l.startswith('  R')) and 'HOLDS' not in l
+                             and 'FINDINGS' not in l]
+                    detail.append((p, rc, lines[:8]))
             shutil.rmtree(ev, ignore_errors=True)
             bad = {p: r for p, r in res.items() if r}
             print('%-8s %s' % (rid, 'SILENT (18/18 exit 0)' if not bad
